@@ -136,6 +136,10 @@ def check_string(mon, v, s, ra, fancy, n_dec):
     unit = 15.0 if ra else 1.0            # one time-second = 15 arc-seconds
     tol = 1e-9 + (0.5 * 10.0 ** (-n_dec) * unit / 3600.0 if n_dec >= 0 else 0)
     mon.stat("readback_err/tol", err / tol, case)
+    half = (0.5 * 10.0 ** (-n_dec) * unit / 3600.0 if n_dec >= 0 else 0.0)
+    import math as _m
+    mon.stat("readback_excess_over_half_unit_in_ulps_of_value",
+             max(0.0, err - half) / _m.ulp(max(abs(v), 1e-300)), case)
     mon.check("str.reads-back", err <= tol,
               lambda: dict(case, read_back_deg=float(back), error_deg=err,
                            tolerance_deg=tol))
